@@ -4326,15 +4326,20 @@ EmitModSib_LabelRip_X86:
           }
 
           label = &_code->label_entry_of(base_label_id);
-          rel_offset -= (4 + imm_size);
+          int64_t rel64 = int64_t(rel_offset) - int64_t(4 + imm_size);
 
           if (label->is_bound_to(_section)) {
             // Label bound to the current section.
-            rel_offset += int32_t(label->offset() - writer.offset_from(_buffer_data));
-            writer.emit32u_le(uint32_t(rel_offset));
+            rel64 += int64_t(label->offset()) - int64_t(writer.offset_from(_buffer_data));
+            if (ASMJIT_UNLIKELY(!Support::is_int_n<32>(rel64)))
+              goto InvalidDisplacement;
+            writer.emit32u_le(uint32_t(uint64_t(rel64) & 0xFFFFFFFFu));
           }
           else {
             // Non-bound label or label bound to a different section.
+            if (ASMJIT_UNLIKELY(!Support::is_int_n<32>(rel64)))
+              goto InvalidDisplacement;
+            rel_offset = int32_t(rel64);
             rel_size = 4;
             goto EmitRel;
           }
